@@ -25,8 +25,17 @@ EXTENDS Integers, Sequences, FiniteSets, TLC
 PubKeyStates  == {"absent", "garbage", "ecdsa", "rsa"}
 PrivKeyStates == {"absent", "badAny", "ok"}        \* badAny: an Any that does not unpack; ok: key matching pubKey's kind
 FrozenStates  == {"absent", "okSigned", "badSig", "badHashLen"}
-TsStates      == {"absent", "t1", "t2", "invalid"} \* t1 < t2; invalid: nanos out of range
-DelayStates   == {-1, 0, 5, 10}
+\* A NotAfter bound is absent or a protobuf Timestamp, i.e. a PAIR (seconds, nanos): the instant is seconds + nanos/10^9,
+\* nanos always counting forward (also before the epoch).  Both components are ranks of classes of concrete values:
+SecRanks      == -2..3   \* -2: before year 1 (out of range); -1: before the epoch; 0: the epoch second; 1 < 2: later seconds;
+                         \*  3: after year 9999 (out of range)
+NanoRanks     == -1..3   \* -1: negative (out of range); 0: whole second; 1 < 2: inside the second; 3: >= 10^9 (out of range)
+TsAbsent      == [p |-> FALSE, sec |-> 0, nanos |-> 0]
+Ts(s, n)      == [p |-> TRUE, sec |-> s, nanos |-> n]
+TsStates      == {TsAbsent} \cup [p : {TRUE}, sec : SecRanks, nanos : NanoRanks]
+                 \* Ts(0, 0): the field is present and empty (the epoch)
+DelayStates   == {-1, 0, 5, 10}                    \* ranks of classes of int32 seconds: negative, zero, two positive values a < b
+                                                    \* (materialized at several scales up to the ends of the int32 range)
 EkuStates     == {"none", "known", "unknown", "any", "unknownThenAny", "anyThenUnknown"}
                  \* any: the literal Any among known names; the last two: an unknown name before / after Any
 BackendStates == {"trillian", "ctfe"}              \* extra_data_issuance_chain_storage_backend
@@ -57,12 +66,17 @@ PresentPubKeyParses(c) == c.pubKey # "garbage"
 \* frozen STH: verifies under the public key (so there must be one, and the STH must be well-formed)
 FrozenOK(c) == c.frozenSth # "absent" => (PubKeyParses(c) /\ c.frozenSth = "okSigned")
 
-\* NotAfter window ordered
-TsVal(t) == IF t = "t1" THEN 1 ELSE 2
+\* NotAfter window ordered: the order of instants, i.e. lexicographic on (seconds, nanos) - two bounds inside the same
+\* second are ordered by their nanos, two bounds in different seconds by the seconds whatever the nanos
+TsWellFormed(t) == t.sec \in -1..2 /\ t.nanos \in 0..2           \* (named) BoundsAreTimestamps: a present bound is a valid Timestamp
+TsBefore(a, b)  == a.sec < b.sec \/ (a.sec = b.sec /\ a.nanos < b.nanos)
 WindowOK(c) ==
-  /\ c.start # "invalid"
-  /\ c.limit # "invalid"
-  /\ (c.start # "absent" /\ c.limit # "absent") => TsVal(c.start) <= TsVal(c.limit)   \* (named) EqualBoundsAllowed: start = limit passes
+  /\ c.start.p => TsWellFormed(c.start)
+  /\ c.limit.p => TsWellFormed(c.limit)
+  /\ (c.start.p /\ c.limit.p) => ~TsBefore(c.limit, c.start)     \* (named) EqualBoundsAllowed: start = limit passes
+\* (named) ValidatedCarriesWindow: the validated configuration (what the instance is built from) repeats the configured
+\* bounds exactly, to the nanosecond, and has none where none is configured
+ValidatedWindow(c) == [start |-> c.start, limit |-> c.limit]
 
 \* merge delays non-negative and ordered
 DelaysOK(c) == c.mmd >= 0 /\ c.expected >= 0 /\ c.expected <= c.mmd
